@@ -42,7 +42,7 @@ CONFIGS = {
     "MD019": [("default", [], {})],
     "MD003": [("default", [], {"style": "consistent"}), ("atx", ["plugins.md003.style=atx"], {"style": "atx"}),
               ("atx_closed", ["plugins.md003.style=atx_closed"], {"style": "atx_closed"}), ("setext", ["plugins.md003.style=setext"], {"style": "setext"})],
-    "MD024": [("default", [], {})],
+    "MD024": [("default", [], {"siblings_only": False}), ("siblings_only", ["plugins.md024.siblings_only=$!True"], {"siblings_only": True})],
     "MD026": [("default", [], {"punctuation": list(".,;:!。，；：！")}), ("qmark", ["plugins.md026.punctuation=?!"], {"punctuation": list("?!")})],
     "MD041": [("default", [], {"level": 1}), ("level=2", ["plugins.md041.level=$#2"], {"level": 2})],
     "MD022": [("default", [], {})],
@@ -62,6 +62,7 @@ FAMILIES = {
     "hr-mixed": "# T\n\n---\n\n***\n\n- - -\n\n---\n",
     "blanks": "# T\n\n\ntext \n\n\n\n```text\n\n\n\n```\n\n\n",
     "tabs": "# T\n\n\ttab code\n\n```text\n\ttab in fence\n```\n\ntext\twith tab\t\n",
+    "changelog": "# Change log\n\n## 1.0.0\n\n### Fixed\n\n### Features\n\n## 2.0.0\n\n### Features\n\n## 1.0.0\n\n# Overview\n\n## Details\n\n# Overview\n",
     "levels": "# T\n\n### skip\n\n#### ok\n\n## back\n\n##### skip again\n\n# second top\n",
     "atx-spacing": "#  two\n\n##\ttab\n\n###   three ###\n\n #  indented two\n\n> ##  in quote\n",
     "nofinal": "# T\n\nlast line",
